@@ -1095,6 +1095,7 @@ package machine
 //@   ensures  disposing: old(m.disposing) ==> r == Canceled && ghost.applied == old(ghost.applied) && unchanged(m.queue, m.queueTick, m.activeStates) && mapeq(m.clock, old(m.clock))
 //@   ensures  backoff:   m.Backoff() ==> r == Canceled && unchanged(m.queue, m.queueTick, m.activeStates) && mapeq(m.clock, old(m.clock))
 //@   ensures  limit:     old(u16(m.queueLen) >= m.QueueLimit) && !mem(states, "Exception") ==> r == Canceled && unchanged(m.queue, m.queueTick, m.activeStates) && mapeq(m.clock, old(m.clock))
+//@   ensures  limit_err: old(u16(m.queueLen) >= m.QueueLimit) && old(mem(m.stateNames, "Exception") && mem(m.activeStates, "Exception")) ==> r == Canceled && unchanged(m.queue, m.queueTick, m.activeStates) && mapeq(m.clock, old(m.clock))
 
 //@ func (m *Machine) Remove(states S, args A) (r Result)
 //@   props C03 C13
@@ -1103,6 +1104,7 @@ package machine
 //@   ensures  disposing: old(m.disposing) ==> r == Canceled && unchanged(m.queue, m.queueTick, m.activeStates) && mapeq(m.clock, old(m.clock))
 //@   ensures  backoff:   m.Backoff() ==> r == Canceled && unchanged(m.queue, m.queueTick, m.activeStates) && mapeq(m.clock, old(m.clock))
 //@   ensures  limit:     old(u16(m.queueLen) >= m.QueueLimit) && !mem(states, "Exception") ==> r == Canceled && unchanged(m.queue, m.queueTick, m.activeStates) && mapeq(m.clock, old(m.clock))
+//@   ensures  limit_noerr: old(u16(m.queueLen) >= m.QueueLimit) && !old(mem(m.stateNames, "Exception") && mem(m.activeStates, "Exception")) ==> r == Canceled && unchanged(m.queue, m.queueTick, m.activeStates) && mapeq(m.clock, old(m.clock))
 
 //@ func (m *Machine) Set(states S, args A) (r Result)
 //@   props C03 C13
